@@ -5,12 +5,12 @@ from . import cbmcdrv, specs as specmod
 from .cbmcdrv import Undecided, VERIF
 
 REPO = os.environ.get('VERIF_REPO', '/repo')
-OUT = os.path.join(VERIF, 'out')
+OUT = os.environ.get('VERIF_OUT_DIR') or os.path.join(VERIF, 'out')
 EVID = os.environ.get('VERIF_EVIDENCE_DIR') or os.path.join(VERIF, 'evidence')
-REPLAYS = os.path.join(VERIF, 'replays')
+REPLAYS = os.environ.get('VERIF_REPLAY_DIR') or os.path.join(VERIF, 'replays')
 KNOWN = os.path.join(VERIF, 'known_findings.txt')
 
-AUXILIARY = {'loop_invariant_base', 'loop_invariant_step', 'loop_assigns', 'model_precondition', 'spec_wellformed', 'assertion'}
+AUXILIARY = {'loop_invariant_base', 'loop_invariant_step', 'loop_assigns', 'model_precondition', 'spec_wellformed', 'assertion', 'cut'}
 
 TRUSTED_BASE = [
     'clang 14 front end (typed JSON AST of the /repo working tree) and cxx2c, the rule-per-node C++ -> C translator in /verif/cxx2c',
@@ -191,6 +191,9 @@ def run_property(pid, cfg, tier='quick', seed=0, replayer=None):
         write_evidence(pid, tier, seed, cfg, [], {}, [], ['extraction break: %s' % e], time.time() - t0, 0)
         return 2
     timeout = cfg.get('timeout', {}).get(tier, 600 if tier == 'quick' else 3600)
+    only = [x for x in os.environ.get('VERIF_ONLY', '').split(',') if x]
+    if only:   # sensitivity runs restrict the check to the functions a scripted mutation touches
+        cfg = dict(cfg, functions=[f for f in cfg['functions'] if any(o in f for o in only)])
     jobs = int(os.environ.get('VERIF_JOBS', '14'))
     results = []
     def is_vc(key):
@@ -205,8 +208,18 @@ def run_property(pid, cfg, tier='quick', seed=0, replayer=None):
     for r in results:
         sp = specs.get(r.key)
         if r.undecided and not r.obligations:
-            undecided.append('%s: %s' % (r.key, r.undecided))
             table[r.key] = {'status': 'undecided', 'reason': r.undecided[:500], 'seconds': round(r.seconds, 1)}
+            # the unbounded proof could not be run (time-out, a new loop without contract, ...): still look for a real
+            # violating execution with loops unwound and small buffers; finding none leaves the property undecided (exit 2)
+            if r.backend == 'cbmc' and r.info.get('path') and sp is not None and 'extraction break' not in r.undecided:
+                btop, bdesc = bounded_confirmation(r, sp, timeout=240)
+                if btop:
+                    r.obligations = btop
+                    table[r.key].update({'status': 'failed', 'failed': ['%s | %s' % (o['name'], o['desc']) for o in btop], 'obligations': len(btop), 'discharged': 0})
+                    violations.append((r, btop, {'failed': btop}))
+                    r.bounded_only = bdesc
+                    continue
+            undecided.append('%s: %s' % (r.key, r.undecided))
             continue
         j = judge(r, sp)
         table[r.key] = {'status': 'ok', 'obligations': len(r.obligations) - len(j['tolerated']), 'discharged': len(j['discharged']),
@@ -255,9 +268,16 @@ def run_property(pid, cfg, tier='quick', seed=0, replayer=None):
     nviol = 0
     for r, failed, j in violations:
         top = [o for o in failed if o['class'] not in AUXILIARY]
-        outcome = None
+        outcome = {'verdict': 'bounded-confirmation', 'detail': r.bounded_only} if getattr(r, 'bounded_only', None) else None
         spx = specs.get(r.key)
-        if top and spx is not None and spx.extra.get('confirm_with') and 'structure' in spx.options:
+        def structural(o_):
+            # an obligation about the SHAPE of the code (which codec call happens where); anything else is about values
+            m_ = re.match(r'(ensures_exc|ensures) (\w+)', o_['desc'])
+            txt = ''
+            if m_ and spx is not None:
+                txt = (spx.ensures_exc if m_.group(1) == 'ensures_exc' else spx.ensures).get(m_.group(2), '')
+            return bool(re.search(r'\b(WROTE|LOOPED|CALLED|READ|COPIED|verif_ncalls|RETP|RETVAL)\b', txt)) or o_['class'] == 'content'
+        if top and spx is not None and spx.extra.get('confirm_with') and 'structure' in spx.options and all(structural(o_) for o_ in top):
             # a structural (call-sequence) obligation failed: the code is shaped differently from the contract.  That is
             # not yet a violation: confirm with the byte-level contract of the same slice (bounded), which yields a real input
             ck = spx.extra['confirm_with']
